@@ -451,7 +451,7 @@ def _curved(case, rec):
     rec.close("stored_centre", r.centroid, np.asarray(cen, dtype=float), 0.0, sig)
     if isinstance(cen, np.ndarray):
         before = observe.canonical(observe.observe(r))
-        cen += 3.0
+        cen += 3  # (in place, whatever the dtype)
         after = observe.canonical(observe.observe(r))
         observe.compare(rec, before, after, max(ax) + float(np.linalg.norm(keep)), cls in ("Sphere", "Ellipsoid"), sig, "aliased_argument_", rtol=1e-13)
         rec.label("alias_checked")
